@@ -16,7 +16,8 @@ impl Compiler {
         dest: u8,
         span: Span,
     ) -> Result<()> {
-        if args.len() > 255 {
+        // callee + arguments need consecutive registers and register 255 is reserved
+        if args.len() > 254 {
             return Err(CompileError::new(
                 CompileErrorKind::TooManyArguments,
                 span,
